@@ -42,6 +42,7 @@ type scheduler struct {
 	detail    string
 	wg        sync.WaitGroup
 	explore   bool
+	filter    string // preemption only at channels created in files matching this
 	preemptBudget int
 	nextChan  int
 	events    []event
@@ -261,6 +262,7 @@ type waiter struct {
 }
 
 type schan struct {
+	site   string // creation site (file:line)
 	id     int
 	cap    int
 	buf    []value
@@ -296,9 +298,17 @@ type scase struct {
 	val  value
 }
 
-func (s *scheduler) newChan(capacity int, zero value) *schan {
+func (s *scheduler) newChan(capacity int, zero value, site string) *schan {
 	s.nextChan++
-	return &schan{id: s.nextChan, cap: capacity, zero: zero}
+	return &schan{id: s.nextChan, cap: capacity, zero: zero, site: site}
+}
+
+// explorable reports whether preemption is explored at operations on ch.
+func (s *scheduler) explorable(ch *schan) bool {
+	if ch == nil || s.filter == "" {
+		return true
+	}
+	return strings.Contains(ch.site, s.filter)
 }
 
 func (s *scheduler) caseReady(c scase) bool {
@@ -365,7 +375,12 @@ func (s *scheduler) execCase(c scase) (value, bool) {
 
 // selectOp performs a select over cases; returns chosen index (-1 = default).
 func (s *scheduler) selectOp(cases []scase, hasDefault bool, what string) (int, value, bool) {
-	s.schedPoint()
+	for _, c := range cases {
+		if s.explorable(c.ch) {
+			s.schedPoint()
+			break
+		}
+	}
 	var ready []int
 	for i, c := range cases {
 		if s.caseReady(c) {
@@ -422,7 +437,9 @@ func (s *scheduler) recv(ch *schan) (value, bool) {
 }
 
 func (s *scheduler) closeChan(ch *schan) {
-	s.schedPoint()
+	if s.explorable(ch) {
+		s.schedPoint()
+	}
 	if ch == nil {
 		panic(targetPanic{iface{t: nil, v: "close of nil channel"}})
 	}
